@@ -80,7 +80,8 @@ def forward (lat lon : F64) (setzone : Int) (mgrslimits : Bool) (kern : F64 × F
   if utmp then
     let lon0 := centralMeridian zone1
     let dlon := (MathF.angDiff lon0 lon).1
-    if !(F64.le dlon (F64.ofInt 60)) then throw "more than 60d from centre of zone"
+    -- two-sided since fix f1d86bf (the western side used to be left to CheckCoords, which lets the NaN of the singular point through)
+    if !(F64.le (F64.abs dlon) (F64.ofInt 60)) then throw "more than 60d from centre of zone"
   else
     if F64.lt (F64.abs lat) (F64.ofInt 70) then throw "more than 20d from pole"
   let (x1, y1, g1, k1) := kern
